@@ -10,6 +10,7 @@
 #include "dnscodec.hh"
 #include <event2/event.h>
 #include <event2/dns.h>
+#include <event2/dns_struct.h>
 #include <event2/listener.h>
 #include <event2/util.h>
 #include <arpa/inet.h>
@@ -27,8 +28,8 @@ using namespace dnsref;
 static int g_cli = -1;                  // client UDP socket (process-wide, drained at the start of every case)
 static struct sockaddr_in g_cli_addr;
 
-static void quiet_log(int, const char *) {}
-static void fatal_cb(int err) { verif_fail("harness/event-fatal", "libevent fatal error %d", err); }
+static void quiet_log(int sev, const char *msg) { if (sev == EVENT_LOG_ERR) fprintf(stderr, "[err] %s\n", msg); }     // keep assertion texts (the driver keys on them)
+static void fatal_cb(int err) { if ((unsigned)err == 0xdeaddeadu) { verif_stats_flush(); abort(); } verif_fail("harness/event-fatal", "libevent fatal error %d", err); }
 static void set_nonblock(int fd) { int fl = fcntl(fd, F_GETFL); fcntl(fd, F_SETFL, fl | O_NONBLOCK); }
 static struct sockaddr_in loopback0() { struct sockaddr_in sin; memset(&sin, 0, sizeof sin); sin.sin_family = AF_INET; sin.sin_addr.s_addr = htonl(INADDR_LOOPBACK); sin.sin_port = 0; return sin; }
 
@@ -114,12 +115,23 @@ struct World {
   }
   size_t tcp_read() {
     size_t got = 0; if (cli_tcp < 0 || tcp_eof) return 0;
-    for (;;) { static uint8_t buf[65536]; ssize_t r = read(cli_tcp, buf, sizeof buf);
+    for (;;) { static uint8_t buf[65536]; int one = 1; setsockopt(cli_tcp, IPPROTO_TCP, TCP_QUICKACK, &one, sizeof one); ssize_t r = read(cli_tcp, buf, sizeof buf);
       if (r > 0) { tcp_in.insert(tcp_in.end(), buf, buf + r); got += (size_t)r; } else { if (r == 0 || (errno != EAGAIN && errno != EWOULDBLOCK && errno != EINTR)) tcp_eof = true; break; } }
     return got;
   }
   // run the server and collect what it writes until nothing more arrives
-  void tcp_pump() { int quiet = 0; while (quiet < 2) { turn(); if (tcp_read() == 0) quiet++; else quiet = 0; } }
+  bool tcp_partial() const { if (tcp_in.empty()) return false; if (tcp_in.size() < 2) return true; size_t n = ((size_t)tcp_in[0] << 8) | tcp_in[1]; return tcp_in.size() < 2 + n; }
+  // run the server and collect what it writes until nothing more arrives.  While a message is only partly there, wait (bounded, real
+  // time) for the kernel: the server socket has Nagle on, so a short tail segment is held back until our ACK is out.
+  void tcp_pump() {
+    int quiet = 0, waited = 0;
+    while (quiet < 2) {
+      turn(); size_t g = tcp_read(); TR("    pump: read %zu (have %zu)", g, tcp_in.size());
+      if (g) { quiet = 0; continue; }
+      if (tcp_partial() && !tcp_eof && waited < 400) { waited++; usleep(500); continue; }
+      quiet++;
+    }
+  }
   bool tcp_pop(std::vector<uint8_t> *msg) {
     if (tcp_in.size() < 2) return false; size_t n = ((size_t)tcp_in[0] << 8) | tcp_in[1];
     if (tcp_in.size() < 2 + n) return false;
@@ -234,7 +246,7 @@ static inline void check_response(const std::vector<uint8_t> &m, const Expect &e
     const XRec &x = e.sec[s][i];
     size_t start = off; NameResult nm = parse_name(p, n, &off);
     bool hdr_ok = nm.ok && off + 10 <= n;
-    if (nm.ok && !labels_eq(nm.labels, x.owner, true) && ptr_wraps(p, n, start, x.owner)) { if (k_ptr) { ri->known_skipped = true; return; } VERIF_FAIL("C35/ptr-offset-ge-16384", "section %d record %u owner at offset %zu: pointer to an occurrence at offset >= 16384 was emitted modulo 0x4000; decoded \"%s\" want \"%s\"", s, i, start, esc(join(nm.labels), 80).c_str(), esc(join(x.owner), 80).c_str()); }
+    if ((!nm.ok || !labels_eq(nm.labels, x.owner, true)) && ptr_wraps(p, n, start, x.owner)) { if (k_ptr) { ri->known_skipped = true; return; } VERIF_FAIL("C35/ptr-offset-ge-16384", "section %d record %u owner at offset %zu: pointer to an occurrence at offset >= 16384 was emitted modulo 0x4000; decoded \"%s\" want \"%s\"", s, i, start, esc(join(nm.labels), 80).c_str(), esc(join(x.owner), 80).c_str()); }
     if (!hdr_ok) { ran_out = true; ran_out_what = "record header"; if (!tc) VERIF_FAIL(mkkey(P, "response-malformed"), "section %d record %u at offset %zu is not decodable (message %zu bytes)", s, i, start, n); break; }
     CHECK(!nm.fwd_ptr, mkkey(P, "forward-pointer"), "section %d record %u owner at offset %zu uses a pointer that does not point backwards", s, i, start);
     CHECK(labels_eq(nm.labels, x.owner, true), mkkey(P, "record-mismatch"), "section %d record %u owner decodes to \"%s\", added \"%s\"", s, i, esc(join(nm.labels), 100).c_str(), esc(join(x.owner), 100).c_str());
@@ -260,7 +272,7 @@ static inline void check_response(const std::vector<uint8_t> &m, const Expect &e
     }
     if (x.is_name) {
       size_t o2 = rdoff; NameResult tn = parse_name(p, n, &o2);
-      if (tn.ok && !labels_eq(tn.labels, x.target, true) && ptr_wraps(p, n, rdoff, x.target)) { if (k_ptr) { ri->known_skipped = true; return; } VERIF_FAIL("C35/ptr-offset-ge-16384", "section %d record %u rdata name at offset %zu: pointer to an occurrence at offset >= 16384 was emitted modulo 0x4000; decoded \"%s\" want \"%s\"", s, i, rdoff, esc(join(tn.labels), 80).c_str(), esc(join(x.target), 80).c_str()); }
+      if ((!tn.ok || !labels_eq(tn.labels, x.target, true)) && ptr_wraps(p, n, rdoff, x.target)) { if (k_ptr) { ri->known_skipped = true; return; } VERIF_FAIL("C35/ptr-offset-ge-16384", "section %d record %u rdata name at offset %zu: pointer to an occurrence at offset >= 16384 was emitted modulo 0x4000; decoded \"%s\" want \"%s\"", s, i, rdoff, esc(join(tn.labels), 80).c_str(), esc(join(x.target), 80).c_str()); }
       CHECK(tn.ok, mkkey(P, "response-malformed"), "section %d record %u: the name in the rdata (offset %zu) is not decodable", s, i, rdoff);
       CHECK(o2 == rdoff + rdlen, mkkey(P, "rdlength-name"), "section %d record %u: RDLENGTH %u but the name in the rdata occupies %zu byte(s)", s, i, rdlen, o2 - rdoff);
       CHECK(!tn.fwd_ptr, mkkey(P, "forward-pointer"), "section %d record %u rdata name at offset %zu uses a pointer that does not point backwards", s, i, rdoff);
